@@ -1,6 +1,9 @@
 package main
 
-import "go.einride.tech/xsens"
+import (
+	"go.einride.tech/xsens"
+	"go.einride.tech/xsens/xsensemulator"
+)
 
 // C11: complete enumeration of the 65536 wire values, both directions, plus the packet accessors.
 func init() {
@@ -25,6 +28,36 @@ func init() {
 				nlist(p[:2])))
 			if v&0x0700 != 0 {
 				c.count("reserved-bits-set")
+			}
+		}
+		// the same through the emulator: a configured identifier must come out of MarshalMessage unchanged in the packet
+		// header (cases identical to the ones above are dropped as duplicates; a difference is a new case)
+		for _, t := range supportedTypes {
+			for coord := 0; coord < 16; coord += 4 {
+				for prec := 0; prec < 4; prec++ {
+					id := xsens.DataIdentifier{DataType: t, CoordinateSystem: xsens.CoordinateSystem(coord), Precision: xsens.Precision(prec)}
+					md := zeroValue(t)
+					if md == nil {
+						continue
+					}
+					emu := xsensemulator.NewEmulator(nil)
+					emu.SetOutputConguration(xsens.OutputConfiguration{{DataIdentifier: id, OutputFrequency: 100}})
+					var pkt []byte
+					protect(func() { pkt, _ = emu.MarshalMessage(md, t) })
+					if len(pkt) < 2 {
+						pkt = []byte{0, 0}
+					}
+					v := int(id.Uint16())
+					dec := xsens.DataIdentifier{DataType: 0xffff, CoordinateSystem: 0xff, Precision: 0xff}
+					dec.SetUint16(uint16(v))
+					pid := xsens.MTData2Packet(pkt).Identifier()
+					c.emit("id16", tup(zs(int64(v)),
+						tup(zs(int64(dec.DataType)), zs(int64(dec.CoordinateSystem)), zs(int64(dec.Precision))),
+						zs(int64(dec.Uint16())),
+						tup(zs(int64(pid.DataType)), zs(int64(pid.CoordinateSystem)), zs(int64(pid.Precision))),
+						nlist(pkt[:2])))
+					c.count("emulator-headers")
+				}
 			}
 		}
 		c.count("wire-values-enumerated")
